@@ -97,6 +97,13 @@ let () =
           (match save (parse_tree t.(2)) with
            | Some b -> print_endline (fmt_hexbytes b)
            | None -> print_endline "ERR R")
+        end else if t.(0) = "rev" then begin
+          let v = n_of_hex t.(2) in
+          let b = match t.(1) with
+            | "16" -> le_bytes (nat_of_int 2) (rev16 v)
+            | "32" -> le_bytes (nat_of_int 4) (rev32 v)
+            | _ -> le_bytes (nat_of_int 8) (rev64 v) in
+          print_endline (fmt_hexbytes b)
         end else if t.(0) = "w" then begin
           let out : n list option =
             match t.(2) with
